@@ -79,6 +79,8 @@ type world struct {
 	certs    map[string]string
 	hm       hmacauth.HmacAuth
 	startErr error
+	lastSig  string // an Sso-Signature / Gap-Signature this proxy put on an earlier request: a client can replay them
+	lastGap  string
 	coq      string
 	js       map[string]interface{}
 }
@@ -313,7 +315,23 @@ func (w *world) raw(s *spec) []byte {
 	var b bytes.Buffer
 	fmt.Fprintf(&b, "%s %s HTTP/1.1\r\nHost: %s\r\n", s.Method, strings.Replace(s.Target, fromHost, w.host, 1), w.host)
 	for _, h := range s.Headers {
-		fmt.Fprintf(&b, "%s: %s\r\n", h.K, h.V)
+		v := h.V
+		switch v { // signature material a client can know: the published key id, signatures seen on earlier requests
+		case "@KID":
+			v = "unknown-key"
+			for k := range w.certs {
+				v = k
+			}
+		case "@SIG":
+			if v = w.lastSig; v == "" {
+				v = "Zm9yZ2VkLXNpZ25hdHVyZQ=="
+			}
+		case "@GAP":
+			if v = w.lastGap; v == "" {
+				v = "sha256 Zm9yZ2VkLW1hYw=="
+			}
+		}
+		fmt.Fprintf(&b, "%s: %s\r\n", h.K, v)
 	}
 	nextID++
 	s.id = strconv.Itoa(nextID)
@@ -552,13 +570,26 @@ func (w *world) emit(f *flight) []c.Case {
 	}
 	inBody, _ := ioutil.ReadAll(in.Body)
 	long := len(s.Body) > 48
+	// a body above a megabyte is never written out: places equal to it refer to the one stand-in
+	// (Corr_C12_defs.big_body), a place that differs is abbreviated
+	big := s.Fill != nil && s.Fill.N > 1<<20 && bytes.Equal(s.Body, s.Fill.bytes())
+	abbrev := func(x string) string {
+		if big && len(x) > 400 {
+			return x[:300] + fmt.Sprintf("...(%d bytes, differs from what was sent)", len(x))
+		}
+		return x
+	}
 	bodyLit := func(b []byte) string {
 		if long && bytes.Equal(b, s.Body) {
 			return "b"
 		}
-		return str(string(b))
+		return str(abbrev(string(b)))
 	}
 	chunked := len(in.TransferEncoding) > 0 && in.TransferEncoding[0] == "chunked"
+	clen := in.ContentLength // Request.ContentLength as net/http parsed it
+	if clen < 0 {
+		clen = 0
+	}
 	// Request.Cookies() as deleteCookie sees it: on an authenticated request an injected Cookie
 	// header has replaced the client's by then
 	ckReq := &http.Request{Header: in.Header.Clone()}
@@ -576,9 +607,9 @@ func (w *world) emit(f *flight) []c.Case {
 		ident = fmt.Sprintf("(Some {| i_user := %s; i_email := %s; i_groups := %s; i_token := %s |})",
 			str(s.User), str(s.Email), strs(s.Groups), str(s.Token))
 	}
-	incoming := fmt.Sprintf("{| r_method := %s; r_host := %s; r_headers := %s; r_path := %s; r_rawquery := %s; r_fragment := %s; r_body := Some %s; r_chunked := %s; r_sso_sig := None; r_kid := None; r_gap_sig := None |}",
+	incoming := fmt.Sprintf("{| r_method := %s; r_host := %s; r_headers := %s; r_path := %s; r_rawquery := %s; r_fragment := %s; r_body := Some %s; r_chunked := %s; r_clen := %d; r_sso_sig := None; r_kid := None; r_gap_sig := None |}",
 		str(in.Method), str(in.Host), sortedHeaders(in.Header, sub), str(in.URL.Path), str(in.URL.RawQuery), str(in.URL.Fragment),
-		bodyLit(inBody), c.Bool(chunked))
+		bodyLit(inBody), c.Bool(chunked), clen)
 
 	// ---- what the upstream received, attempt by attempt
 	var out []c.Case
@@ -614,7 +645,13 @@ func (w *world) emit(f *flight) []c.Case {
 			vRSA = &v
 		}
 		res, _, _ := w.hm.AuthenticateRequest(mk())
-		rsaLit := str(sub(implRSA))
+		if v := got.Header.Get(sigName); len(v) > 100 {
+			w.lastSig = v
+		}
+		if v := got.Header.Get("Gap-Signature"); strings.Contains(v, " ") {
+			w.lastGap = v
+		}
+		rsaLit := str(sub(abbrev(implRSA)))
 		if long && strings.HasSuffix(implRSA, string(s.Body)) {
 			rsaLit = "(" + str(sub(strings.TrimSuffix(implRSA, string(s.Body)))) + " ++ b)"
 		}
@@ -638,6 +675,9 @@ func (w *world) emit(f *flight) []c.Case {
 					p = p[:s.Fill.N]
 				}
 				lit = fmt.Sprintf("(fill %s %d %d)", str(p), s.Fill.Byte, s.Fill.N)
+				if big {
+					lit = fmt.Sprintf("(big_body %s %d %d)", str(p), s.Fill.Byte, s.Fill.N)
+				}
 			}
 			coq = "(let b := " + lit + " in " + coq + ")"
 		}
@@ -766,6 +806,17 @@ func genSpec(r *c.Rng, tier string) *spec {
 			s.Headers = append(s.Headers, hdr{"Connection", r.Pick(connSig)})
 		} else {
 			s.Headers = append(s.Headers, hdr{"Connection", r.Pick(connPool)}, hdr{"Connection", r.Pick(connCovered)})
+		}
+	}
+	if r.Chance(0.15) { // client-supplied signature headers: forged, or replayed from an earlier request of this proxy
+		forged := r.Chance(0.5)
+		for _, h := range []hdr{{"Sso-Signature", "@SIG"}, {"kid", "@KID"}, {"Gap-Signature", "@GAP"}} {
+			if r.Chance(0.8) {
+				if forged {
+					h.V = r.Pick([]string{"forged", "Zm9yZ2Vk", "sha256 Zm9yZ2Vk", ""})
+				}
+				s.Headers = append(s.Headers, h)
+			}
 		}
 	}
 	r.Shuffle(len(s.Headers), func(i, j int) { s.Headers[i], s.Headers[j] = s.Headers[j], s.Headers[i] })
@@ -1246,6 +1297,31 @@ func main() {
 	}
 	for _, w := range keyWorlds {
 		cases = append(append(cases, w.run(corp[0])...), w.run(corp[1])...)
+	}
+	// client-supplied signature headers (replayed from this proxy's own earlier requests, with the published key
+	// id, or forged): what reaches the upstream must be the proxy's own, verifying values
+	for _, w := range []*world{worlds[0], worlds[2], worlds[1], injWorlds[0]} {
+		s := baseSpec("client replays an earlier Sso-Signature / Gap-Signature with the published kid", "POST", "/replay?x=1",
+			hdr{"Sso-Signature", "@SIG"}, hdr{"kid", "@KID"}, hdr{"Gap-Signature", "@GAP"}, hdr{"Authorization", "Bearer other"})
+		s.Mode, s.Body = "sized", []byte("a different document")
+		cases = append(cases, w.run(s)...)
+		s = baseSpec("client sends forged signature headers, several spellings", "GET", "/forged",
+			hdr{"SSO-SIGNATURE", "forged"}, hdr{"Kid", "forged"}, hdr{"KID", "@KID"}, hdr{"gap-signature", "sha256 Zm9yZ2Vk"})
+		cases = append(cases, w.run(s)...)
+	}
+	// very large sized bodies (above the sizes anybody buffers casually), with client-supplied signature headers
+	nBig := 1
+	if thorough {
+		nBig = 2
+	}
+	for i := 0; i < nBig; i++ {
+		w := []*world{worlds[0], worlds[2]}[i%2]
+		s := baseSpec("very large sized body", []string{"POST", "PUT"}[i%2], fmt.Sprintf("/upload/%d", i),
+			hdr{"Content-Type", "application/octet-stream"}, hdr{"Sso-Signature", "@SIG"}, hdr{"kid", "@KID"}, hdr{"Gap-Signature", "@GAP"})
+		s.Mode = "sized"
+		s.Fill = &fill{Prefix: fmt.Sprintf("<upload %d nonce %d>", i, r.Intn(1000000)), Byte: 'u', N: 33<<20 + r.Intn(7<<20)}
+		s.Body = s.Fill.bytes()
+		cases = append(cases, w.run(s)...)
 	}
 	// every upstream of every multi-upstream deployment
 	for _, w := range depWorlds {
